@@ -78,6 +78,21 @@ def adaptive_cases(tier, rng):
     return C + scripted + avoid
 
 
+def _adapt_validate(args):
+    import json
+    import os
+    from lib import tlc
+    wd, batch = args
+    os.makedirs(wd, exist_ok=True)
+    tf = os.path.join(wd, 'runs.json')
+    json.dump(dict(runs=batch), open(tf, 'w'))
+    cfg = os.path.join(wd, 'A.cfg')
+    tlc.write_cfg(cfg, spec='Spec', check_deadlock=False)
+    res = tlc.run_tlc('AdaptMonitor', cfg, workers=1, timeout=1800, env_extra={'TRACE_FILE': tf})
+    verdicts = {v['tid']: v['viol'] for v in res.prints if isinstance(v, dict) and 'tid' in v}
+    return verdicts, res.summary(), ('' if len(verdicts) == len(batch) else res.raw[-500:])
+
+
 def _adapt_job(case):
     from harness import adapt_runs
     try:
@@ -126,16 +141,18 @@ def run(tier, seed):
                 rep.problem('adaptive run failed: ' + o['error'], dict(kind='adaptive-run', case=c), clause='adapt.unexpected_library_error')
             else:
                 runs.append(dict(tid=k + 1, case=c, exc=o['exc'], att=o['att'], max_restarts=o['max_restarts']))
-        tf = os.path.join(scratch, 'runs.json')
-        json.dump(dict(runs=[{k: v for k, v in r.items() if k != 'case'} for r in runs]), open(tf, 'w'))
-        cfg = os.path.join(scratch, 'A.cfg')
-        tlc.write_cfg(cfg, spec='Spec', check_deadlock=False)
-        res = tlc.run_tlc('AdaptMonitor', cfg, workers=1, timeout=1800, env_extra={'TRACE_FILE': tf})
-        verdicts = {v['tid']: v['viol'] for v in res.prints if isinstance(v, dict) and 'tid' in v}
-        rep.states += res.distinct
-        rep.transitions += res.generated
-        if len(verdicts) != len(runs):
-            rep.machinery.append('AdaptMonitor did not return all verdicts: ' + res.raw[-500:])
+        # validation by TLC, in parallel batches
+        nb = 16
+        batches = [[{k: v for k, v in r.items() if k != 'case'} for r in runs[i::nb]] for i in range(nb)]
+        with mp.Pool(nb) as pool:
+            vres = pool.map(_adapt_validate, [(os.path.join(scratch, f'am{i}'), b) for i, b in enumerate(batches) if b], chunksize=1)
+        verdicts = {}
+        for v, summ, raw in vres:
+            verdicts.update(v)
+            rep.states += summ['distinct']
+            rep.transitions += summ['generated']
+            if raw:
+                rep.machinery.append('AdaptMonitor did not return all verdicts: ' + raw[-500:])
         byid = {r['tid']: r for r in runs}
         for tid, viol in verdicts.items():
             for clause in viol:
